@@ -292,7 +292,21 @@ func main() {
 			addRange(bg.Random(r, nm, nt, np, false), "random")
 			addRR(bg.Random(r, nm, nt, np, true), "random")
 		}
-		// degenerate round-robin inputs: the error answer
+		// irregular subscriptions: a topic named twice, a topic the map lacks, lists as long as the topic map
+	irr := bg.IrregularSmall()
+	nirr := *n / 5
+	if *thorough {
+		nirr = len(irr)
+	}
+	for _, i := range r.Perm(len(irr)) {
+		if nirr == 0 {
+			break
+		}
+		nirr--
+		addRange(irr[i], "irregular")
+		addRR(irr[i], "irregular")
+	}
+	// degenerate round-robin inputs: the error answer
 		addRR(bg.Input{}, "empty")
 		addRR(bg.Input{Members: []bg.Member{{ID: "m0"}}}, "empty")
 	}
@@ -302,8 +316,21 @@ func main() {
 	// ---------------- sticky
 	hangs := 0
 	ws := &cf.Writer{Dir: *out, Prefix: "cases_sticky", Imports: imports, CaseType: "scase", MismatchFn: "mismatches_sticky", ShardSize: 40}
+	// one strategy value is reused for all Plan calls (as the BalanceStrategySticky singleton is by real groups): Plan must not
+	// carry anything over from one call to the next (the model starts every Plan with empty movement records); every third case
+	// runs on a fresh value instead. A value whose Plan call was abandoned (hang) is never used again.
+	shared := sarama.VerifNewSticky()
+	ncase := 0
 	addSticky := func(in bg.Input, kind, chain string, step int, log []string) sarama.BalanceStrategyPlan {
-		run := bg.RunSticky(in)
+		ncase++
+		inst := shared
+		if ncase%3 == 0 {
+			inst = nil
+		}
+		run := bg.RunStickyOn(inst, in)
+		if run.Hang {
+			shared = sarama.VerifNewSticky()
+		}
 		var mon *cf.Monitor
 		switch {
 		case run.Hang:
@@ -371,7 +398,55 @@ func main() {
 				npick--
 			}
 		}
-		nchains := *n / 6
+		// irregular subscriptions (topic twice, topic the map lacks)
+	nis := *n / 10
+	for _, i := range r.Perm(len(irr)) {
+		if nis == 0 {
+			break
+		}
+		nis--
+		addSticky(irr[i], "irregular", "", 0, nil)
+	}
+	// a partition moved a->b in one rebalance is dropped from its topic, the next rebalance moves partitions of that topic b->a:
+	// movement records surviving from the previous call would redirect to the dropped partition
+	for c := 0; c < *n/40+2 && hangs == 0; c++ {
+		np := 4 + r.Intn(6)
+		mk := func(parts []int32, aAll bool) bg.Input {
+			all := map[string][]int32{"t": parts}
+			none := map[string][]int32{}
+			da, _ := sarama.BalanceStrategySticky.AssignmentData("", all, 7)
+			db, _ := sarama.BalanceStrategySticky.AssignmentData("", none, 7)
+			if !aAll {
+				da, db = db, da
+			}
+			in := bg.Input{Members: []bg.Member{{ID: "a", Topics: []string{"t"}, Data: da}, {ID: "b", Topics: []string{"t"}, Data: db}},
+				Topics: []bg.Topic{{Name: "t", Parts: parts}}}
+			in.Normalize()
+			return in
+		}
+		save := shared
+		ncase = 0 // both steps on the shared value
+		p1 := addSticky(mk(bg.Seq(np), true), "reuse-reverse", fmt.Sprintf("reuse-%d", c), 0, nil)
+		if p1 == nil {
+			continue
+		}
+		// drop the partitions b received
+		var rest []int32
+		dropped := map[int32]bool{}
+		for _, q := range p1["b"]["t"] {
+			dropped[q] = true
+		}
+		for _, q := range bg.Seq(np) {
+			if !dropped[q] {
+				rest = append(rest, q)
+			}
+		}
+		if len(rest) >= 2 && shared == save {
+			ncase = 0
+			addSticky(mk(rest, false), "reuse-reverse", fmt.Sprintf("reuse-%d", c), 1, nil)
+		}
+	}
+	nchains := *n / 6
 		for c := 0; c < nchains; c++ {
 			kind := []string{"honest", "honest", "stale", "forged"}[c%4]
 			nm, nt, mp := 1+r.Intn(5), 1+r.Intn(3), 6
